@@ -595,7 +595,6 @@ impl Store {
                 return Err("xs.context frames must be in zero context".into());
             }
             frame.ttl = Some(TTL::Forever);
-            self.contexts.write().unwrap().insert(frame.id);
         } else {
             // Validate context exists
             let contexts = self.contexts.read().unwrap();
